@@ -309,10 +309,14 @@ class ExprMixin:
         return self.alloc(state, d, e, "dict")
 
     def eval_Set(self, e, state):
-        for x in e.elts:
-            self.eval(x, state)
-        self.event("set-display", e)
-        return Top("set")
+        items = [self.eval(x, state) for x in e.elts]
+        if state.bottom:
+            return Bottom()
+        elem: Val = Bottom()
+        for x in items:
+            elem = join_val(elem, x)
+        src = Seq(Length.const(len(items)), elem if items else Top("empty"), "k", tuple(items), None, frozenset(), "list")
+        return self.bi.make_set(src, e, state)
 
     def eval_Lambda(self, e, state):
         fr = self.stack[-1]
@@ -1018,9 +1022,10 @@ class ExprMixin:
         return replace(seq, kind="iter")
 
     def eval_SetComp(self, e, state):
-        self._comprehension(e, e.elt, state)
-        self.event("set-display", e)
-        return Top("set")
+        seq = self._comprehension(e, e.elt, state)
+        if seq is None or state.bottom:
+            return Bottom()
+        return self.bi.make_set(seq, e, state)
 
     def eval_DictComp(self, e, state):
         pair = getattr(e, "_osv_pair_twin", None)  # persistent: site ids are keyed by node identity
